@@ -375,6 +375,41 @@ def run(ctx):
                      "%d success paths end the position; %s" % (n, "each settles it through a remain-margin result (funding charged)" if bad is None else
                         "a path ends the position WITHOUT a remain-margin computation: funding accrued since the checkpoint is neither charged nor paid"))
 
+    # ---- R11.5 (sign): what the reversal settles.  The old position's equity is margin - funding owed + pnl; the record
+    # handed to the second leg carries its negative, and the pure-close branch pays its magnitude:
+    #     X = (-margin + funding) - unrealized_pnl      with funding = (latest - checkpoint) * size / decimals
+    st_r = em.reply_step("OpenPosition>id3")
+    if st_r is None:
+        ctx.lost("R11.5", "OpenPosition>id3 chain")
+    else:
+        from .c03 import transfers_of as _tof
+        plr = lambda name: em.pos_field_leaf(name)
+        FUND_R = ("idiv", ("imul", ("isub", anyhole("latest"), plr("last_updated_premium_fraction")), plr("size")), ("pos", em.cfg_leaf("decimals")))
+        XPAT = ("isub", ("iadd", ("neg", plr("margin")), FUND_R), em.tmp_leaf("unrealized_pnl"))
+        bad_r = None
+        n_r = 0
+        for q in st_r.ok_paths():
+            cands = []
+            for tv in em.stored_tmp(st_r, q):
+                cands.append(N(ix, st_r.c(sym.field(tv, "margin_to_vault"))))
+            for s_ in em.emitted(q):
+                for (k_, payer_, recv_, amt_) in _tof(ix, s_):
+                    if amt_ is not None and k_ in ("cw20-transfer", "bank-send"):
+                        na = N(ix, st_r.c(amt_))
+                        if na[0] == "mag":
+                            cands.append(na[1])
+            for x_ in cands:
+                if x_ in (("pos", ("int", 0)), ("int", 0)):
+                    continue
+                n_r += 1
+                # the funding term may still be the remain-margin result's field when that function is not expanded
+                if match(XPAT, x_) is None:
+                    alt = ("isub", ("iadd", ("neg", plr("margin")), hole("rm.funding_payment", lambda v: tag(ix.inline(v)) == "field" and payload(ix.inline(v))[0] == "funding_payment")), em.tmp_leaf("unrealized_pnl"))
+                    if match(alt, x_) is None:
+                        bad_r = bad_r or "the reversal settles %s" % norm.show(x_)[:220]
+        ctx.inst("R11.5", "reversal-settlement-sign", bad_r is None and n_r > 0, st_r.fn.where(),
+                 bad_r or "%d settlements: -(margin) + funding owed - pnl (funding owed lowers what the trader gets back)" % n_r)
+
     # ---------------------------------------------------------------- R11.8
     # the function every settlement goes through: funding = (latest cumulative fraction - checkpoint) * size / decimals,
     # latest = the cumulative fraction queried for the position's vAMM on EVERY path (a new position must start from it),
